@@ -140,7 +140,7 @@ def c15_filter(ctx, k, look, start, rec):
 
 def _cfg_fire(tier):
     out = []
-    K = 12 if tier == 'quick' else 40
+    K = 12 if tier == 'quick' else 24
     plan = [('A', 100.0, dict(), 'none'), ('A', 100.0, dict(sight_in=-1.0), 'none'), ('B', 60.0, dict(), 'left'), ('B', 60.0, dict(), 'head30'),
             ('A', 100.0, dict(look_deg=20.0), 'none')]      # inclined sight line (needs the C02 zero-finder fix to zero at a coarse step)
     if tier == 'thorough':
@@ -148,7 +148,7 @@ def _cfg_fire(tier):
                  ('A', 30.0, dict(), 'none'), ('B', 20.0, dict(), 'none')]
     for (c, step, kw, wind) in plan:
         rmax = K * step / 2 * 0.95
-        shards = 3 if tier == 'quick' else 10
+        shards = 3 if tier == 'quick' else 8
         for i in range(shards):
             out.append({'carrier': c, 'step_ft': step, 'kw': kw, 'wind': wind, 'rlo': max(rmax * i / shards, step * 1.01), 'rhi': rmax * (i + 1) / shards})
     return out
@@ -156,7 +156,7 @@ def _cfg_fire(tier):
 
 @harness('C15.fire', 'C15', configs=_cfg_fire, functions=FUNCS, cost=12, engine_opts={'div_check': False, 'nl_axioms_in_feasibility': False},
          must_reach=['check:flagged_rows_match_crossings', 'check:zeros_accessor', 'zero_up_row', 'zero_down_row', 'mach_row'],
-         bounds='carriers A (sight above / below bore, level and +20 deg sight line), B (Mach crossing; cross wind and a 30 mph head wind) with coarse steps, horizon K <= 12 / 40 steps; '
+         bounds='carriers A (sight above / below bore, level and +20 deg sight line), B (Mach crossing; cross wind and a 30 mph head wind) with coarse steps, horizon K <= 12 / 24 steps; '
                 'symbolic range R and record step S >= max step (cells of the (R, S) plane)',
          outside=['shots other than the carriers (the filter harness covers arbitrary point sequences)'])
 def c15_fire(ctx, carrier, step_ft, kw, wind, rlo, rhi):
